@@ -3,6 +3,7 @@ package props
 import (
 	"fmt"
 	"go/ast"
+	"go/token"
 	"go/types"
 	"golang.org/x/tools/go/cfg"
 	"regexp"
@@ -87,6 +88,7 @@ func runC08(c *core.Ctx) {
 	c.Rule("R10", "every waiting phase of both lifecyclers heartbeats from a ticker it creates itself with the configured period", 5)
 	c.Rule("R11", "the own entry is removed at one place per lifecycler: in stopping, on the actor itself, after the last heartbeat of the shutdown loop", 2)
 	c.Rule("R12", "the token check before ACTIVE accepts only lists of equal length (a subset of the picked tokens is not 'the same tokens')", 1)
+	c.Rule("R13", "heartbeat timestamps are wall-clock readings: no store to InstanceDesc.Timestamp is computed from the previous timestamp (heartbeats never go backwards)", 10)
 	c.Rule("R9", "token top-up: request (target − held) tokens and append them to the held list, so a fresh join ends with the configured count and inherited tokens are kept", 5)
 	c.Rule("R8", "tokens inherited from the ring are kept: a heartbeat re-publishes the ring entry's tokens when the entry exists, the remembered ones only when it is missing", 6)
 	pkg := c.Prog.Pkg("ring")
@@ -107,6 +109,7 @@ func runC08(c *core.Ctx) {
 	c08Generate(c, pkg, fns)
 	c08Ready(c, pkg)
 	c08Sorted(c, pkg, fns)
+	c08HeartbeatClock(c, pkg)
 	c09HeartbeatAs(c, "R8")
 	c09TopUpAs(c, "R9")
 	c08HeartbeatTickers(c)
@@ -999,4 +1002,71 @@ func c08CompareTokens(c *core.Ctx) {
 		}}
 	res := t.Run()
 	c.Check(res.OK(), "R12", "func=Lifecycler.compareTokens", fn.Pos(), "no accepting return is reachable when the ring's list and the own list differ in length: "+res.Summary(), res.Rows)
+}
+
+// c08HeartbeatClock (R13): the heartbeat timestamp of an instance entry is a reading of the wall clock — every
+// store to InstanceDesc.Timestamp in package ring assigns time.Now().Unix(), the Unix() of a time parameter, the
+// constant 0 (entries handed out to callers with the heartbeat blanked) or a copy of another entry's Timestamp.
+// A value computed from the previous timestamp (previous+1, a max with it, …) can run ahead of the clock, and
+// the next plain heartbeat then publishes a SMALLER timestamp: heartbeats must never go backwards, and the
+// last-writer-wins merge would discard that heartbeat as stale.
+func c08HeartbeatClock(c *core.Ctx, pkg *packages.Package) {
+	nt := an.LookupType(pkg, "InstanceDesc")
+	if nt == nil {
+		c.Miss("R13", "type=InstanceDesc", "not found")
+		return
+	}
+	var fld *types.Var
+	st := nt.Underlying().(*types.Struct)
+	for i := 0; i < st.NumFields(); i++ {
+		if st.Field(i).Name() == "Timestamp" {
+			fld = st.Field(i)
+		}
+	}
+	if fld == nil {
+		c.Miss("R13", "field=InstanceDesc.Timestamp", "not found")
+		return
+	}
+	clockRe := regexp.MustCompile(`^(time\.Now\(\)|λ?p\d+|recv)\.Unix\(\)$`)
+	per := map[string]int{}
+	n := 0
+	for _, a := range an.FieldAccesses(pkg, fld) {
+		if !a.Write || strings.Contains(c.Prog.PosStr(a.Node.Pos()), ".pb.go:") {
+			continue
+		}
+		var val ast.Expr
+		switch x := a.Node.(type) {
+		case *ast.KeyValueExpr:
+			val = x.Value
+		default:
+			// find the assignment whose LHS is this selector
+			a.In.InspectShallow(func(nd ast.Node) bool {
+				if as, ok := nd.(*ast.AssignStmt); ok && len(as.Lhs) == len(as.Rhs) {
+					for i, l := range as.Lhs {
+						if an.Unparen(l) == a.Node && as.Tok == token.ASSIGN {
+							val = as.Rhs[i]
+						}
+					}
+				}
+				return true
+			})
+		}
+		per[a.Fn.Name]++
+		key := fmt.Sprintf("heartbeat-store:func=%s#%d", a.Fn.Name, per[a.Fn.Name])
+		n++
+		if val == nil {
+			c.Viol("R13", key, a.Node.Pos(), "InstanceDesc.Timestamp is modified by something other than a plain assignment (compound assignment, increment, address taken)")
+			continue
+		}
+		cv := a.In.Canon(val)
+		isTimeParam := false
+		if m := clockRe.FindStringSubmatch(cv); m != nil {
+			isTimeParam = true
+		}
+		ok := isTimeParam || cv == "0" || strings.HasSuffix(cv, ".Timestamp")
+		c.Check(ok, "R13", key, a.Node.Pos(), fmt.Sprintf("heartbeat timestamp stored = %s (allowed: the wall clock's Unix(), 0, or a copy of another entry's Timestamp — never a value computed from the previous timestamp)", cv), 1)
+	}
+	if n < 5 {
+		c.Undec("R13", "heartbeat-store:count", pkg.Syntax[0].Pos(), fmt.Sprintf("expected ≥ 5 stores to InstanceDesc.Timestamp in package ring, found %d", n))
+	}
 }
